@@ -126,6 +126,8 @@ def vc_dual(H, cls='MultiVector', rel=MV):
                 try:
                     r = clo(me, kind) if kind != 'auto' else clo(me)
                     raised = None
+                except OutOfSubset:
+                    raise                       # the engine cannot follow the body: undecided, not "the code raised"
                 except Exception as e:
                     r, raised = None, e
                 if kind == 'polarity':
